@@ -57,6 +57,15 @@ func KitchenSink(packageRoot string) *Schema {
 	rec("Top", []string{"Mid"}, F("ts", P("string")), Opt("to", R(q("Leaf"))))
 	rec("IncOnlyDefaults", []string{"Base"}, F("own", P("int32"))) // declares no default itself, inherits one
 	rec("IncEmpty", []string{"Empty"}, F("x", P("int32")))
+	// include chains through a record that declares nothing itself
+	rec("MidBare", []string{"Base"})
+	rec("OverMidBare", []string{"MidBare"}, F("own2", P("int32")))
+	rec("OnlyOverMidBare", []string{"MidBare"})
+	// a default-less record holding a required record that has defaults, reached through includes
+	rec("HoldsLeaf", nil, F("held", R(q("Leaf"))))
+	rec("OverHoldsLeaf", []string{"HoldsLeaf"}, Def("port", P("int32"), "443"))
+	rec("MidHolds", []string{"HoldsLeaf"})
+	rec("OverMidHolds", []string{"MidHolds"}, Def("port", P("int32"), "8443"))
 	rec("TwoIncludes", []string{"Leaf", "Base"}, Opt("z", P("bool")))
 	rec("Refs", nil,
 		F("col", R(q("Color"))), F("fx", R(q("F4"))), F("tr", R(q("TString"))), F("trb", R(q("TBytes"))), F("tri", R(q("TInt64"))), F("trf", R(q("TFloat32"))),
@@ -72,6 +81,7 @@ func KitchenSink(packageRoot string) *Schema {
 		Def("dleaf", R(q("Leaf")), `{"s":"x"}`), Def("du", R(q("U")), `{"int":5}`), Def("dul", R(q("U")), `{"ks.kt.Leaf":{"s":"in union"}}`),
 		Def("dal", A(R(q("Leaf"))), `[{"s":"a"},{"s":"b","n":1}]`), Def("dea", A(P("int32")), `[]`), Def("dem", M(P("string")), `{}`), Def("dm", M(A(P("int32"))), `{"k":[1,2],"":[]}`),
 		Def("das", A(P("string")), `["","a,b","(c)"]`), Def("df", P("float64"), `-0.0000001`), Def("dbl", P("bool"), `false`), F("req", P("string")),
+		Def("dbz", P("bytes"), `"ab\u0000"`), Def("dbzz", P("bytes"), `"\u0000\u0000"`), Def("dtbz", R(q("TBytes")), `"k\u0000\u0000"`), Def("dfz", R(q("F4")), `"a\u0000\u0000\u0000"`),
 		OptDef("ods", P("string"), `"optional with default"`), OptDef("odl", A(P("int32")), `[3,1,2]`), OptDef("odr", R(q("Leaf")), `{"s":"od"}`))
 	rec("NestedDefaults", nil, F("d", R(q("Defaults"))), Opt("od", R(q("Defaults"))), F("ad", A(R(q("Defaults")))), F("leaf", R(q("Leaf"))))
 	rec("Keywords", nil, F("type", P("string")), Opt("func", P("int32")), F("_under", P("bool")), F("a$b", P("string")), F("Go", P("int32")), F("x_1", P("string")), Opt("map", M(P("string"))), Opt("range", A(P("int32"))))
